@@ -1358,6 +1358,27 @@ impl<'a, const C: usize, const R: usize, T: 'a + Copy + std::fmt::Debug> Layout<
         let custom = self.process_extra_waitings(custom);
         self.process_sequence_custom(custom)
     }
+    /// Starts running a sequence (macro). Only a fixed number of sequences can run at once; when
+    /// starting one more evicts the oldest, the keys the evicted sequence still holds are released
+    /// because the steps that would have released them will never run.
+    fn start_sequence(&mut self, events: &'a [SequenceEvent<'a, T>]) {
+        let evicted = self.active_sequences.push_back(SequenceState {
+            cur_event: None,
+            delay: 0,
+            tapped: None,
+            remaining_events: events,
+        });
+        if let Some(evicted) = evicted {
+            if let Some(keycode) = evicted.tapped {
+                self.states.retain(|s| s.seq_release(keycode).is_some());
+            }
+            for ev in evicted.remaining_events.iter() {
+                if let SequenceEvent::Release(keycode) = ev {
+                    self.states.retain(|s| s.seq_release(*keycode).is_some());
+                }
+            }
+        }
+    }
     /// Takes care of draining and populating the `active_sequences` ArrayDeque,
     /// giving us sequences (aka macros) of nearly limitless length!
     fn process_sequences(&mut self) {
@@ -1898,12 +1919,7 @@ impl<'a, const C: usize, const R: usize, T: 'a + Copy + std::fmt::Debug> Layout<
                 return custom;
             }
             Sequence { events } => {
-                self.active_sequences.push_back(SequenceState {
-                    cur_event: None,
-                    delay: 0,
-                    tapped: None,
-                    remaining_events: events,
-                });
+                self.start_sequence(events);
                 if !is_oneshot {
                     self.oneshot
                         .handle_press(OneShotHandlePressKey::Other(coord));
@@ -1911,12 +1927,7 @@ impl<'a, const C: usize, const R: usize, T: 'a + Copy + std::fmt::Debug> Layout<
                 self.rpt_action = Some(action);
             }
             RepeatableSequence { events } => {
-                self.active_sequences.push_back(SequenceState {
-                    cur_event: None,
-                    delay: 0,
-                    tapped: None,
-                    remaining_events: events,
-                });
+                self.start_sequence(events);
                 let _ = self.states.push(RepeatingSequence {
                     sequence: events,
                     coord,
